@@ -6,6 +6,9 @@
 -/
 import ZodbModel.Generated
 import ZodbModel.FsIndex
+import ZodbModel.Format
+import ZodbModel.Recover
+import ZodbModel.IndexCache
 namespace Props.Tie
 open ZodbModel
 
@@ -16,6 +19,21 @@ theorem fsIndex_prefix_split : agrees Generated.fsIndexPrefixBytes 6 = true ∧ 
   decide
 /-- … and stores 6-byte (48-bit) values. -/
 theorem fsIndex_value_width : agrees Generated.fsIndexValueBytes 6 = true ∧ 256 ^ 6 = 2 ^ 48 := by
+  decide
+
+/-- the 4-byte FileStorage magic the byte-level models start every file with (`b"FS30"`) -/
+theorem filestorage_magic :
+    agrees Generated.magicAsNat (beVal ZodbModel.Format.magic) = true ∧
+    ZodbModel.Format.magic = ZodbModel.Recover.magic := by decide
+
+/-- `_check_sanity`: at most 5 records are compared with the index, and an index position below 100
+    is never trusted -/
+theorem sanity_constants :
+    agrees Generated.sanityMaxChecked ZodbModel.IndexCache.maxChecked = true ∧
+    agrees Generated.sanityMinPos 100 = true := by decide
+
+/-- `fsrecover.scan` reads 8096-byte windows -/
+theorem recover_scan_window : agrees Generated.recoverScanWindow ZodbModel.Recover.window = true := by
   decide
 
 end Props.Tie
